@@ -214,7 +214,7 @@ def main(tier, replay=None):
 
     CASES = 12000
     for k in range(0, len(cases), CASES):
-        judge(fncases.observe(lib, cases[k:k + CASES], ranges=False))
+        judge(fncases.observe(lib, cases[k:k + CASES], ranges=False, twins=True))
     # the host edits its lists in place between two evaluations of the same call
     mo = fncases.observe_after_mutation(lib, cases[::7][:800 if quick else 30000])
     run.extra['evaluations_after_in_place_edit'] = len(mo)
